@@ -141,3 +141,283 @@ Theorem format_text_same_characters :
 Proof. exact FormatWords.format_text_same_characters. Qed.
 Print Assumptions format_text_same_characters.
 
+
+(* ---- which parameters format(...) passes on (FormatParams.v): 'given positionally, by name or through the font config'.
+   format_call: grammar of the call over tokens ('format' '(' [type] STRING [, positional font / width] [, named parameters] ')').
+   parse_format_call: a call of the grammar is consumed exactly and answered with format_text on the CHOSEN parameters;
+   chosen_parameters_spec and the single lemmas: the font is the written one, else -f, else the config's default; the width the
+   written one if positive, else (if none is written at all) -l, else the maxLineLength of THAT font; numLines written, else that
+   font's, else 2; cursorOverlapWidth written, else that font's - every default comes from the font actually used
+   (parse_format_reads_only_the_chosen_font). Unknown font: the error at the written font id, else at the text (D18); in lint
+   mode the empty text. format_error_located: the 14 error exits with their tokens; parse_format_characterised,
+   parse_format_ok_inv, parse_format_err_inv: nothing else is accepted or reported; format_call_lines_fit: the lines of an
+   accepted call fit under the chosen font's widths and parameters. ---- *)
+From Pory Require FormatParams. Open Scope list_scope.
+Theorem parse_format_call :
+  forall (fc : fontcfg) (cli_font : text) (cli_maxlen : Z) (ee : bool) (l : list token) (rp ttok : token) (sty : text)
+    (w : FormatParams.written) (R : list token),
+  FormatParams.format_call l rp ttok sty w ->
+  parse_format fc cli_font cli_maxlen ee (l ++ R) = FormatParams.call_result fc cli_font cli_maxlen ee ttok sty w (rp :: R).
+Proof. exact FormatParams.parse_format_call. Qed.
+Print Assumptions parse_format_call.
+
+Theorem chosen_parameters_spec :
+  forall (fc : fontcfg) (cli_font : text) (cli_maxlen : Z) (w : FormatParams.written),
+  (forall tk : token, FormatParams.wFont w = Some tk -> FormatParams.chosen_font fc cli_font w = tlit tk) /\
+  (FormatParams.wFont w = None -> cli_font <> [] -> FormatParams.chosen_font fc cli_font w = cli_font) /\
+  (FormatParams.wFont w = None -> cli_font = [] -> FormatParams.chosen_font fc cli_font w = fcDefault fc) /\
+  FormatParams.chosen_entry fc cli_font w = font_of fc (FormatParams.chosen_font fc cli_font w) /\
+  (forall v : Z, FormatParams.wMax w = Some v -> 0 < v -> FormatParams.chosen_max fc cli_font cli_maxlen w = v) /\
+  (forall v : Z,
+   FormatParams.wMax w = Some v ->
+   v <= 0 -> FormatParams.chosen_max fc cli_font cli_maxlen w = fMaxLen (FormatParams.chosen_entry fc cli_font w)) /\
+  (FormatParams.wMax w = None -> 0 < cli_maxlen -> FormatParams.chosen_max fc cli_font cli_maxlen w = cli_maxlen) /\
+  (FormatParams.wMax w = None ->
+   cli_maxlen <= 0 -> FormatParams.chosen_max fc cli_font cli_maxlen w = fMaxLen (FormatParams.chosen_entry fc cli_font w)) /\
+  (forall v : Z, FormatParams.wLines w = Some v -> 0 < v -> FormatParams.chosen_lines fc cli_font w = v) /\
+  (FormatParams.wLines w = None \/ (exists v : Z, FormatParams.wLines w = Some v /\ v <= 0) ->
+   FormatParams.chosen_lines fc cli_font w =
+   (if fNumLines (FormatParams.chosen_entry fc cli_font w) <=? 0 then 2 else fNumLines (FormatParams.chosen_entry fc cli_font w))) /\
+  (forall v : Z, FormatParams.wCursor w = Some v -> 0 < v -> FormatParams.chosen_cursor fc cli_font w = v) /\
+  (FormatParams.wCursor w = None \/ (exists v : Z, FormatParams.wCursor w = Some v /\ v <= 0) ->
+   FormatParams.chosen_cursor fc cli_font w = fCursor (FormatParams.chosen_entry fc cli_font w)).
+Proof. exact FormatParams.chosen_parameters_spec. Qed.
+Print Assumptions chosen_parameters_spec.
+
+Theorem chosen_font_written :
+  forall (fc : fontcfg) (cli_font : text) (w : FormatParams.written) (tk : token),
+  FormatParams.wFont w = Some tk -> FormatParams.chosen_font fc cli_font w = tlit tk.
+Proof. exact FormatParams.chosen_font_written. Qed.
+Print Assumptions chosen_font_written.
+
+Theorem chosen_font_cli :
+  forall (fc : fontcfg) (cli_font : text) (w : FormatParams.written),
+  FormatParams.wFont w = None -> cli_font <> [] -> FormatParams.chosen_font fc cli_font w = cli_font.
+Proof. exact FormatParams.chosen_font_cli. Qed.
+Print Assumptions chosen_font_cli.
+
+Theorem chosen_font_default :
+  forall (fc : fontcfg) (cli_font : text) (w : FormatParams.written),
+  FormatParams.wFont w = None -> cli_font = [] -> FormatParams.chosen_font fc cli_font w = fcDefault fc.
+Proof. exact FormatParams.chosen_font_default. Qed.
+Print Assumptions chosen_font_default.
+
+Theorem chosen_max_written :
+  forall (fc : fontcfg) (cli_font : text) (cli_maxlen : Z) (w : FormatParams.written) (v : Z),
+  FormatParams.wMax w = Some v -> 0 < v -> FormatParams.chosen_max fc cli_font cli_maxlen w = v.
+Proof. exact FormatParams.chosen_max_written. Qed.
+Print Assumptions chosen_max_written.
+
+Theorem chosen_max_written_nonpositive :
+  forall (fc : fontcfg) (cli_font : text) (cli_maxlen : Z) (w : FormatParams.written) (v : Z),
+  FormatParams.wMax w = Some v -> v <= 0 -> FormatParams.chosen_max fc cli_font cli_maxlen w = fMaxLen (FormatParams.chosen_entry fc cli_font w).
+Proof. exact FormatParams.chosen_max_written_nonpositive. Qed.
+Print Assumptions chosen_max_written_nonpositive.
+
+Theorem chosen_max_cli :
+  forall (fc : fontcfg) (cli_font : text) (cli_maxlen : Z) (w : FormatParams.written),
+  FormatParams.wMax w = None -> 0 < cli_maxlen -> FormatParams.chosen_max fc cli_font cli_maxlen w = cli_maxlen.
+Proof. exact FormatParams.chosen_max_cli. Qed.
+Print Assumptions chosen_max_cli.
+
+Theorem chosen_max_config :
+  forall (fc : fontcfg) (cli_font : text) (cli_maxlen : Z) (w : FormatParams.written),
+  FormatParams.wMax w = None ->
+  cli_maxlen <= 0 -> FormatParams.chosen_max fc cli_font cli_maxlen w = fMaxLen (FormatParams.chosen_entry fc cli_font w).
+Proof. exact FormatParams.chosen_max_config. Qed.
+Print Assumptions chosen_max_config.
+
+Theorem chosen_lines_written :
+  forall (fc : fontcfg) (cli_font : text) (w : FormatParams.written) (v : Z),
+  FormatParams.wLines w = Some v -> 0 < v -> FormatParams.chosen_lines fc cli_font w = v.
+Proof. exact FormatParams.chosen_lines_written. Qed.
+Print Assumptions chosen_lines_written.
+
+Theorem chosen_lines_config :
+  forall (fc : fontcfg) (cli_font : text) (w : FormatParams.written),
+  FormatParams.wLines w = None \/ (exists v : Z, FormatParams.wLines w = Some v /\ v <= 0) ->
+  0 < fNumLines (FormatParams.chosen_entry fc cli_font w) ->
+  FormatParams.chosen_lines fc cli_font w = fNumLines (FormatParams.chosen_entry fc cli_font w).
+Proof. exact FormatParams.chosen_lines_config. Qed.
+Print Assumptions chosen_lines_config.
+
+Theorem chosen_lines_two :
+  forall (fc : fontcfg) (cli_font : text) (w : FormatParams.written),
+  FormatParams.wLines w = None \/ (exists v : Z, FormatParams.wLines w = Some v /\ v <= 0) ->
+  fNumLines (FormatParams.chosen_entry fc cli_font w) <= 0 -> FormatParams.chosen_lines fc cli_font w = 2.
+Proof. exact FormatParams.chosen_lines_two. Qed.
+Print Assumptions chosen_lines_two.
+
+Theorem chosen_cursor_written :
+  forall (fc : fontcfg) (cli_font : text) (w : FormatParams.written) (v : Z),
+  FormatParams.wCursor w = Some v -> 0 < v -> FormatParams.chosen_cursor fc cli_font w = v.
+Proof. exact FormatParams.chosen_cursor_written. Qed.
+Print Assumptions chosen_cursor_written.
+
+Theorem chosen_cursor_config :
+  forall (fc : fontcfg) (cli_font : text) (w : FormatParams.written),
+  FormatParams.wCursor w = None \/ (exists v : Z, FormatParams.wCursor w = Some v /\ v <= 0) ->
+  FormatParams.chosen_cursor fc cli_font w = fCursor (FormatParams.chosen_entry fc cli_font w).
+Proof. exact FormatParams.chosen_cursor_config. Qed.
+Print Assumptions chosen_cursor_config.
+
+Theorem parse_format_reads_only_the_chosen_font :
+  forall (fc fc' : fontcfg) (cli_font : list N) (cli_maxlen : Z) (ee : bool) (l : list token) (rp ttok : token) (sty : text)
+    (w : FormatParams.written) (R : list token),
+  FormatParams.format_call l rp ttok sty w ->
+  (FormatParams.wFont w = None -> cli_font = [] -> fcDefault fc' = fcDefault fc) ->
+  assoc (fcFonts fc') (FormatParams.chosen_font fc cli_font w) = assoc (fcFonts fc) (FormatParams.chosen_font fc cli_font w) ->
+  parse_format fc' cli_font cli_maxlen ee (l ++ R) = parse_format fc cli_font cli_maxlen ee (l ++ R).
+Proof. exact FormatParams.parse_format_reads_only_the_chosen_font. Qed.
+Print Assumptions parse_format_reads_only_the_chosen_font.
+
+Theorem parse_format_usable_font :
+  forall (fc : fontcfg) (cli_font : text) (cli_maxlen : Z) (ee : bool) (l : list token) (rp ttok : token) (sty : text)
+    (w : FormatParams.written) (R : list token),
+  FormatParams.format_call l rp ttok sty w ->
+  FormatParams.usable_font fc (FormatParams.chosen_font fc cli_font w) ->
+  exists out : text,
+    format_text fc (tlit ttok) (FormatParams.chosen_max fc cli_font cli_maxlen w) (FormatParams.chosen_cursor fc cli_font w)
+      (FormatParams.chosen_font fc cli_font w) (FormatParams.chosen_lines fc cli_font w) = Some out /\
+    parse_format fc cli_font cli_maxlen ee (l ++ R) = Ok (ttok, out, sty, rp :: R).
+Proof. exact FormatParams.parse_format_usable_font. Qed.
+Print Assumptions parse_format_usable_font.
+
+Theorem parse_format_unknown_font :
+  forall (fc : fontcfg) (cli_font : text) (cli_maxlen : Z) (l : list token) (rp ttok : token) (sty : text) (w : FormatParams.written)
+    (R : list token),
+  FormatParams.format_call l rp ttok sty w ->
+  FormatParams.unknown_font fc (FormatParams.chosen_font fc cli_font w) ->
+  parse_format fc cli_font cli_maxlen true (l ++ R) =
+  err_tok match FormatParams.wFont w with
+          | Some tk => tk
+          | None => ttok
+          end
+    (String.String (Ascii.Ascii true false true false true true true false)
+       (String.String (Ascii.Ascii false true true true false true true false)
+          (String.String (Ascii.Ascii true true false true false true true false)
+             (String.String (Ascii.Ascii false true true true false true true false)
+                (String.String (Ascii.Ascii true true true true false true true false)
+                   (String.String (Ascii.Ascii true true true false true true true false)
+                      (String.String (Ascii.Ascii false true true true false true true false)
+                         (String.String (Ascii.Ascii false false false false false true false false)
+                            (String.String (Ascii.Ascii false true true false false true true false)
+                               (String.String (Ascii.Ascii true true true true false true true false)
+                                  (String.String (Ascii.Ascii false true true true false true true false)
+                                     (String.String (Ascii.Ascii false false true false true true true false)
+                                        (String.String (Ascii.Ascii true false false true false false true false)
+                                           (String.String (Ascii.Ascii false false true false false false true false) String.EmptyString)))))))))))))).
+Proof. exact FormatParams.parse_format_unknown_font. Qed.
+Print Assumptions parse_format_unknown_font.
+
+Theorem parse_format_unknown_font_lint :
+  forall (fc : fontcfg) (cli_font : text) (cli_maxlen : Z) (l : list token) (rp ttok : token) (sty : text) (w : FormatParams.written)
+    (R : list token),
+  FormatParams.format_call l rp ttok sty w ->
+  FormatParams.unknown_font fc (FormatParams.chosen_font fc cli_font w) ->
+  parse_format fc cli_font cli_maxlen false (l ++ R) = Ok (ttok, [], sty, rp :: R).
+Proof. exact FormatParams.parse_format_unknown_font_lint. Qed.
+Print Assumptions parse_format_unknown_font_lint.
+
+Theorem format_error_located :
+  forall (fc : fontcfg) (cli_font : text) (cli_maxlen : Z) (ee : bool) (l : list token) (e : perr) (R : list token),
+  FormatParams.format_error l e -> parse_format fc cli_font cli_maxlen ee (l ++ R) = Err e.
+Proof. exact FormatParams.format_error_located. Qed.
+Print Assumptions format_error_located.
+
+Theorem format_call_or_error :
+  forall ts : toks,
+  FormatParams.eof_ended ts ->
+  ttype (Parser.cur ts) = FORMAT ->
+  (exists (l R : list token) (rp ttok : token) (sty : text) (w : FormatParams.written), ts = l ++ R /\ FormatParams.format_call l rp ttok sty w) \/
+  (exists (l R : list token) (e : perr), ts = l ++ R /\ FormatParams.format_error l e).
+Proof. exact FormatParams.format_call_or_error. Qed.
+Print Assumptions format_call_or_error.
+
+Theorem parse_format_characterised :
+  forall (fc : fontcfg) (cli_font : text) (cli_maxlen : Z) (ee : bool) (ts : toks),
+  FormatParams.eof_ended ts ->
+  ttype (Parser.cur ts) = FORMAT ->
+  (exists (l R : list token) (rp ttok : token) (sty : text) (w : FormatParams.written),
+     ts = l ++ R /\
+     FormatParams.format_call l rp ttok sty w /\
+     parse_format fc cli_font cli_maxlen ee ts = FormatParams.call_result fc cli_font cli_maxlen ee ttok sty w (rp :: R)) \/
+  (exists (l R : list token) (e : perr), ts = l ++ R /\ FormatParams.format_error l e /\ parse_format fc cli_font cli_maxlen ee ts = Err e).
+Proof. exact FormatParams.parse_format_characterised. Qed.
+Print Assumptions parse_format_characterised.
+
+Theorem parse_format_ok_inv :
+  forall (fc : fontcfg) (cli_font : text) (cli_maxlen : Z) (ee : bool) (ts : toks) (ttok : token) (out sty : text) (ts' : toks),
+  FormatParams.eof_ended ts ->
+  ttype (Parser.cur ts) = FORMAT ->
+  parse_format fc cli_font cli_maxlen ee ts = Ok (ttok, out, sty, ts') ->
+  exists (l R : list token) (rp : token) (w : FormatParams.written),
+    ts = l ++ R /\
+    FormatParams.format_call l rp ttok sty w /\
+    ts' = rp :: R /\
+    (format_text fc (tlit ttok) (FormatParams.chosen_max fc cli_font cli_maxlen w) (FormatParams.chosen_cursor fc cli_font w)
+       (FormatParams.chosen_font fc cli_font w) (FormatParams.chosen_lines fc cli_font w) = Some out \/
+     ee = false /\ FormatParams.unknown_font fc (FormatParams.chosen_font fc cli_font w) /\ out = []).
+Proof. exact FormatParams.parse_format_ok_inv. Qed.
+Print Assumptions parse_format_ok_inv.
+
+Theorem parse_format_err_inv :
+  forall (fc : fontcfg) (cli_font : text) (cli_maxlen : Z) (ee : bool) (ts : toks) (e : perr),
+  FormatParams.eof_ended ts ->
+  ttype (Parser.cur ts) = FORMAT ->
+  parse_format fc cli_font cli_maxlen ee ts = Err e ->
+  (exists l R : list token, ts = l ++ R /\ FormatParams.format_error l e) \/
+  ee = true /\
+  (exists (l R : list token) (rp ttok : token) (sty : text) (w : FormatParams.written),
+     ts = l ++ R /\
+     FormatParams.format_call l rp ttok sty w /\
+     FormatParams.unknown_font fc (FormatParams.chosen_font fc cli_font w) /\
+     e =
+     FormatParams.perr_tok match FormatParams.wFont w with
+                           | Some tk => tk
+                           | None => ttok
+                           end
+       (String.String (Ascii.Ascii true false true false true true true false)
+          (String.String (Ascii.Ascii false true true true false true true false)
+             (String.String (Ascii.Ascii true true false true false true true false)
+                (String.String (Ascii.Ascii false true true true false true true false)
+                   (String.String (Ascii.Ascii true true true true false true true false)
+                      (String.String (Ascii.Ascii true true true false true true true false)
+                         (String.String (Ascii.Ascii false true true true false true true false)
+                            (String.String (Ascii.Ascii false false false false false true false false)
+                               (String.String (Ascii.Ascii false true true false false true true false)
+                                  (String.String (Ascii.Ascii true true true true false true true false)
+                                     (String.String (Ascii.Ascii false true true true false true true false)
+                                        (String.String (Ascii.Ascii false false true false true true true false)
+                                           (String.String (Ascii.Ascii true false false true false false true false)
+                                              (String.String (Ascii.Ascii false false true false false false true false) String.EmptyString))))))))))))))).
+Proof. exact FormatParams.parse_format_err_inv. Qed.
+Print Assumptions parse_format_err_inv.
+
+Theorem parse_format_no_panic_no_fuel :
+  forall (fc : fontcfg) (cli_font : text) (cli_maxlen : Z) (ee : bool) (ts : toks),
+  FormatParams.eof_ended ts ->
+  ttype (Parser.cur ts) = FORMAT -> parse_format fc cli_font cli_maxlen ee ts <> Panic /\ parse_format fc cli_font cli_maxlen ee ts <> Fuel.
+Proof. exact FormatParams.parse_format_no_panic_no_fuel. Qed.
+Print Assumptions parse_format_no_panic_no_fuel.
+
+Theorem format_call_lines_fit :
+  forall (fc : fontcfg) (cli_font : text) (cli_maxlen : Z) (ee : bool) (l : list token) (rp ttok : token) (sty : text)
+    (w : FormatParams.written) (R : list token),
+  FormatParams.format_call l rp ttok sty w ->
+  FormatParams.usable_font fc (FormatParams.chosen_font fc cli_font w) ->
+  let id := FormatParams.chosen_font fc cli_font w in
+  let maxW := FormatParams.chosen_max fc cli_font cli_maxlen w in
+  let cursor := FormatParams.chosen_cursor fc cli_font w in
+  let numLines := FormatParams.chosen_lines fc cli_font w in
+  let txt := map (fun c : N => if (c =? 10)%N then 32%N else c) (tlit ttok) in
+  let spaceW := rune_width fc 32 id in
+  let width := fun x : text => word_width fc x id in
+  exists (out : text) (ls : list (line text)),
+    parse_format fc cli_font cli_maxlen ee (l ++ R) = Ok (ttok, out, sty, rp :: R) /\
+    out = print_lines ls /\
+    Forall2 (fun (i : Z) (ln : line text) => line_ok text width spaceW maxW cursor numLines i ln /\ disc_ok text numLines i ln)
+      (indices text 0 ls) ls /\ lines_src text numLines 0 ls (map classify (words_of txt)).
+Proof. exact FormatParams.format_call_lines_fit. Qed.
+Print Assumptions format_call_lines_fit.
+
